@@ -196,6 +196,10 @@ struct SchedAcc {
     mismatches: Vec<Value>,
     mismatch_count: u64,
     log_errors: Vec<String>,
+    /// executions whose recorded ids were not strictly increasing (ids handed out twice / counter
+    /// moved backwards by the code under test) and the first such log
+    nonmonotone: u64,
+    nonmonotone_sample: Option<String>,
 }
 
 fn worker_sched(job: &Value, refs: &Value) -> Value {
@@ -234,7 +238,9 @@ fn worker_sched(job: &Value, refs: &Value) -> Value {
     let items2 = items.clone();
     let acc2 = acc.clone();
     let allocs2 = allocs.clone();
-    let n_runs = runner.run(move || {
+    // The DFS scheduler panics when an execution does not reproduce the previous one under the same
+    // schedule prefix (e.g. control flow that depends on hash-map order); that aborts this search.
+    let run_result = std::panic::catch_unwind(std::panic::AssertUnwindSafe(|| runner.run(move || {
         LOG.lock().unwrap().clear();
         let mut hs = vec![];
         for (t, &it) in items2.iter().enumerate() {
@@ -266,8 +272,19 @@ fn worker_sched(job: &Value, refs: &Value) -> Value {
         a.schedules += 1;
         // sanity of the observation: ids strictly increase along the log and every thread made
         // exactly its sequential number of allocations
-        if !log.windows(2).all(|w| w[0].1 < w[1].1) && a.log_errors.len() < 3 {
-            a.log_errors.push(format!("allocation log not increasing: {log:?}"));
+        // Nothing in the harness touches the counter during a schedule search, so ids that do not
+        // strictly increase along the allocation order were produced by the code under test: that is
+        // a finding (reported by the supervisor), and the search continues so that byte-level
+        // consequences can be reported too.
+        if !log.windows(2).all(|w| w[0].1 < w[1].1) {
+            a.nonmonotone += 1;
+            if a.nonmonotone_sample.is_none() {
+                a.nonmonotone_sample = Some(format!("{:?}", log.iter().map(|(t, id)| format!("{}:{}", (b'A' + *t) as char, id)).collect::<Vec<_>>()));
+            }
+        }
+        // an entry from a thread the harness did not start cannot be caused by the code under test
+        if log.iter().any(|(t, _)| *t as usize >= items2.len()) && a.log_errors.len() < 3 {
+            a.log_errors.push(format!("allocation log contains an unknown thread index: {log:?}"));
         }
         let mut outcomes = outcomes;
         for (t, n) in allocs2.iter().enumerate() {
@@ -291,9 +308,16 @@ fn worker_sched(job: &Value, refs: &Value) -> Value {
                 }
             }
         }
-    });
+    })));
     MODE.store(MODE_OFF, Ordering::Relaxed);
-    let a = acc.lock().unwrap();
+    let a = acc.lock().unwrap_or_else(|e| e.into_inner());
+    let (n_runs, aborted) = match run_result {
+        Ok(n) => (n, None),
+        Err(p) => {
+            let msg = p.downcast_ref::<String>().cloned().or_else(|| p.downcast_ref::<&str>().map(|s| s.to_string())).unwrap_or_default();
+            (a.schedules as usize, Some(msg.chars().take(200).collect::<String>()))
+        }
+    };
     if !a.log_errors.is_empty() {
         return json!({"machinery": format!("schedule observation inconsistent: {:?}", a.log_errors)});
     }
@@ -307,6 +331,9 @@ fn worker_sched(job: &Value, refs: &Value) -> Value {
         "pattern_samples": a.pattern_samples,
         "mismatches": a.mismatches,
         "mismatch_count": a.mismatch_count,
+        "aborted": aborted,
+        "nonmonotone": a.nonmonotone,
+        "nonmonotone_sample": a.nonmonotone_sample,
         "allocs": allocs,
         "capped": max_iter.map(|m| n_runs >= m).unwrap_or(false),
     })
@@ -851,6 +878,26 @@ fn body(run: &Run, replay: Option<&Value>) {
                 if v["capped"].as_bool() == Some(true) {
                     run.cap_hit(&format!("schedule search {names:?} stopped at max_schedules"));
                 }
+                if let Some(why) = v["aborted"].as_str() {
+                    // the search stopped early because executions stopped being reproducible under
+                    // the same schedule prefix. With findings already made in this search that is
+                    // consistent with the code under test misbehaving: report the findings and mark
+                    // the space as not exhausted; without any finding it is a machinery problem.
+                    let has_findings = v["nonmonotone"].as_u64().unwrap_or(0) > 0 || v["mismatch_count"].as_u64().unwrap_or(0) > 0;
+                    if has_findings {
+                        run.cap_hit(&format!("schedule search {names:?} aborted after {schedules} schedules (execution not reproducible under the same schedule prefix): {why}"));
+                    } else {
+                        run.machinery_error(&format!("schedule search {names:?} aborted without findings: {why}"));
+                        return;
+                    }
+                }
+                if v["nonmonotone"].as_u64().unwrap_or(0) > 0 {
+                    run.violation(
+                        "ObjectId allocation is not monotone within the process (ids reused across compilations)",
+                        &format!("threads compiling {:?}: in {} of {} schedules the ids handed out (thread:id in allocation order) did not strictly increase, e.g. {}", names, v["nonmonotone"], schedules, v["nonmonotone_sample"].as_str().unwrap_or("")),
+                        json!({"job": spec, "seed": job.seed, "detail": {"nonmonotone": v["nonmonotone"]}}),
+                    );
+                }
                 for m in v["mismatches"].as_array().cloned().unwrap_or_default() {
                     let it = m["item"].as_u64().unwrap_or(0) as usize;
                     let others: Vec<&str> = names.clone();
@@ -1048,7 +1095,7 @@ fn replay_case(run: &Run, sup: &Sup, items: &[menu::Item], case: &Value) {
             let it = job["item"].as_u64().unwrap() as usize;
             v["first"] != refs[it.to_string()] || v["second"] != refs[it.to_string()]
         }
-        _ => v["mismatches"].as_array().map(|a| !a.is_empty()).unwrap_or(false),
+        _ => v["mismatches"].as_array().map(|a| !a.is_empty()).unwrap_or(false) || v["nonmonotone"].as_u64().unwrap_or(0) > 0,
     };
     if failed {
         let name = job.get("item").and_then(|i| i.as_u64()).map(|i| items[i as usize].name).unwrap_or("");
